@@ -52,9 +52,11 @@ def run_job(kind, key):
         w, I, table = setup([(px, py)])
         c = table['depccg/unification.py::Unification.__call__']
         recs, npaths = verify_contract(I, c, PROP, only_case=case, prefix=prefix)
+        nrep = 0
         for r in recs:
-            if r['verdict'] == 'failed' and r.get('inputs') and r.get('case') != 'second-call':
+            if r['verdict'] == 'failed' and r.get('inputs') and r.get('case') != 'second-call' and nrep < 2:
                 r['replay'] = replay_pair(px, py, r['inputs'])
+                nrep += 1
         return dict(job=f'{px} , {py}', records=recs, paths=npaths, lib=sorted(I.used_lib), inlined=sorted(I.inlined))
     w, I, table = setup([])
     if kind == 'contract':
